@@ -115,9 +115,12 @@ class Lit:
            "Definition D (k : dkey) (v : N) : dkey * N := (k, v).\n"
            "Definition KO (k : option str) (v : N) : option str * N := (k, v).\n"
            "Definition B a b c : res binding := Ok (mkB a b c).\n"
+           "Definition Bo (F : sig) a b c : res binding :=\n"
+           "  Ok (mkB (match pos_params F with p :: q :: _ => [(pname p, SV); (pname q, CV)] | _ => [] end ++ a) b c).\n"
            "Definition ET {A} : res A := Err TypeError.\nDefinition ES {A} : res A := Err SyntaxError.\n"
            "Definition EI {A} : res A := Err IndexError.\nDefinition EO {A} : res A := Err OtherError.\n"
            "Definition Cs (u : bool) (F : sig) (c : list targ) (p t : res binding) : both_case := (u, F, c, p, t).\n"
+           "Definition Cd (u : bool) (F : sig) (c : list targ) (p : res binding) : both_case := (u, F, c, p, p).\n"
            "Definition Cp (F : sig) (c : list targ) (p : res binding) : pybind_case := (F, c, p).\n"
            "Definition Cv (u : bool) (F : sig) (ps : list (option str * N)) (ex : list (str * N)) (r : res binding) "
            ": validate_case := (u, F, ps, ex, r).\n")
@@ -172,11 +175,22 @@ class Lit:
                 out.append("TSpreadD %s" % self.dkvs(a[1]))
         return self.lst(out)
 
-    def obs(self, o):
+    def obs(self, o, sig=None):
         if o[0] == "err":
             return ERRT.get(o[1], "EO")
         _, vals, va, kw = o
-        return "(B %s %s %s)" % (self.kvs(vals), self.opt(va, lambda l: self.lst(["%d" % v for v in l])), self.opt(kw, self.kvs))
+        vals = [tuple(x) for x in vals]
+        tail = "%s %s" % (self.opt(va, lambda l: self.lst(["%d" % v for v in l])), self.opt(kw, self.kvs))
+        if sig is not None and vals[:2] == [(sig["names"][0], SV), (sig["names"][1], CV)]:
+            # short form (parsing the literals dominates coqc time): self and context were bound to the node and the Context
+            return "(Bo %s %s %s)" % (self.sig(sig), self.kvs(vals[2:]), tail)
+        return "(B %s %s)" % (self.kvs(vals), tail)
+
+    def both(self, use_code, sig, call, py, tag):
+        if py == tag:
+            o = self.obs(py, sig)
+            return "Cd %s %s %s %s" % (C.cbool(use_code), self.sig(sig), self.call(call), o)
+        return "Cs %s %s %s %s %s" % (C.cbool(use_code), self.sig(sig), self.call(call), self.obs(py, sig), self.obs(tag, sig))
 
     def header(self):
         h = self.HDR
@@ -593,7 +607,7 @@ def account(chk, sig, call, kind, variant, use_code, py, tag, src, terms, meta):
     if why:
         chk.fail(classify(sig, call), why, {"kind": "tag", "sig": sig, "call": call, "template": src, "variant": variant,
                                             "render": sig_src(sig).split("\n")[0], "python": py, "tag": tag})
-    terms.append("Cs %s %s %s %s %s" % (C.cbool(use_code), LIT.sig(sig), LIT.call(call), LIT.obs(py), LIT.obs(tag)))
+    terms.append(LIT.both(use_code, sig, call, py, tag))
     meta.append((sig, call, py, tag, src + " [render() built as: %s]" % variant))
 
 
@@ -653,7 +667,7 @@ def validator_cases(chk, sig, fn, vsig, n, rng, terms, meta, kind, stub, stub_ou
                           "render": sig_src(sig).split("\n")[0], "python": py, "validated_call": r})
             terms.append("Cv %s %s %s %s %s" % (C.cbool(use_code), LIT.sig(sig),
                                                 LIT.lst(["KO %s %d" % (LIT.opt(k, LIT.s), v) for k, v in params]),
-                                                LIT.kvs(extra), LIT.obs(r)))
+                                                LIT.kvs(extra), LIT.obs(r, sig)))
             meta.append((use_code, sig, params, extra, r))
 
 
